@@ -804,3 +804,10 @@ def r7(ctx):
         else:
             ctx.check(lang in served, key, f"extension {e} -> language {lang!r}, for which get_file_source has no source (raises)", f.loc())
     ctx.floor(20)
+
+
+@rule("C01.R8", "command-line definitions: -DNAME is 1, -DNAME=value takes the whole value, an empty value stays empty (= C03.R7)")
+def r8(ctx):
+    from .c03 import r7 as c03r7
+
+    c03r7(ctx)
